@@ -699,7 +699,7 @@ static void bmodel_apply(jwt_builder_t *b, const bmodel_t *m)
 	}
 }
 
-static long c13_gens, c13_gen_ok;
+static long c13_gens, c13_gen_ok, c13_histories;
 
 static void c13_builder_history(const int *ops, int n, const char *desc)
 {
@@ -781,6 +781,7 @@ static void enumerate_c13(void)
 			if (!vf_case("checker %s: [%s]", cc_name[cc], desc))
 				continue;
 			c13_checker_history(cc, ops, D, desc);
+			c13_histories++;
 			vf_nontrivial_case();
 		}
 	}
@@ -807,9 +808,12 @@ static void enumerate_c13(void)
 		if (!vf_case("builder: [%s]", desc))
 			continue;
 		c13_builder_history(ops, DB, desc);
+		c13_histories++;
 		vf_nontrivial_case();
 	}
 	vf_count("evaluations", c13_steps + c13_gens);
+	vf_count("transitions", c13_steps + c13_gens);
+	vf_count("states", c13_histories);
 	vf_count("verify_steps_compared", c13_steps);
 	vf_count("verify_accepts", c13_accepts);
 	vf_count("generate_steps_compared", c13_gens);
